@@ -122,6 +122,48 @@ func c05Monitor(vf, vt *StoreView, auxBefore string, tr Trans, res *StepResult) 
 	return "", ""
 }
 
+// c05StateOracle is the same rule as a state invariant (it also sees a commit that was lost or torn by a crash, which
+// no single transition shows): when the last proposal merged into a configuration is marked COMMITTED, the readable
+// configuration is, leaf for leaf, the document the plugin accepted for that proposal.
+func c05StateOracle(v *StoreView, aux string) (string, string) {
+	for _, c := range v.Cfgs {
+		n := c.Status.Committed.Index
+		if n == 0 {
+			continue
+		}
+		id := fmt.Sprintf("%s-%d", c.TargetID, n)
+		p := v.Props[configapi.ProposalID(id)]
+		if p == nil || p.Status.Phases.Commit == nil || p.Status.Phases.Commit.State != configapi.ProposalCommitPhase_COMMITTED {
+			continue
+		}
+		doc, ok := c05AuxGet(aux, id)
+		if !ok || !strings.HasPrefix(doc, "accepted:") {
+			continue // judged by the transition monitor
+		}
+		seen := strings.TrimPrefix(doc, "accepted:")
+		live := c05LiveText(c)
+		if live == seen {
+			continue
+		}
+		// the values and the record are two writes: while a later proposal's commit is under way (or was cut short by
+		// a crash and will be re-done) the values may already be the document accepted for that proposal
+		ok = false
+		for pid, q := range v.Props {
+			t, m := proposalIndex(string(pid))
+			if t != string(c.TargetID) || configapi.Index(m) <= n || q.Status.Phases.Commit == nil {
+				continue
+			}
+			if d, has := c05AuxGet(aux, string(pid)); has && d == "accepted:"+live {
+				ok = true
+			}
+		}
+		if !ok {
+			return "validated-document-differs-from-committed-configuration/at-rest", fmt.Sprintf("proposal %s is COMMITTED and is the last one merged into %s: the plugin accepted {%s} but the readable configuration is {%s}, which is not the accepted document of a later proposal being committed either", id, c.TargetID, seen, live)
+		}
+	}
+	return "", ""
+}
+
 func c05Scenarios(thorough bool) []*Scenario {
 	a := func(leaf, v string) SetReqOrCall { return setReq("T1."+leaf+"="+v, upd("T1", "/cont/"+leaf, v)) }
 	// the model forbids leafA and leafA2 together: the second Set must be judged on top of the first one's result
@@ -220,7 +262,16 @@ func checkC05(rc *RunCtx) *Report {
 	}
 	runMonitorCheck(rc, rep, scs, c05Aux, func(sc *Scenario, vf, vt *StoreView, auxBefore string, tr Trans, res *StepResult) (string, string) {
 		return c05Monitor(vf, vt, auxBefore, tr, res)
-	}, nil)
+	}, func(sc *Scenario, x *Explorer, s *E1State, cands *candidates) {
+		x.W.Restore(s.snap)
+		aux := s.aux
+		if cl, text := c05StateOracle(x.W.fastView(), aux); cl != "" {
+			cands.consider(x, rep, sc, s, cl, fmt.Sprintf("scenario %q: %s", sc.Name, text), func(w *World) (bool, string) {
+				c2, t2 := c05StateOracle(w.View(), aux)
+				return c2 == cl, t2
+			})
+		}
+	})
 	if rc.Worker == "" {
 		e, d := c05Sizes(rep)
 		rep.Coverage["size_cases"] = e
